@@ -179,44 +179,32 @@ class Reach(object):
 
   @staticmethod
   def _find_code(obj, path):
-    """obj: module; path: 'Class.method' or 'Class.method.<inner>'."""
+    """obj: module; path: 'Class.method' or 'Class.method.inner_function'
+    (decorators with __wrapped__, static/class methods and properties are
+    looked through; private names must be given mangled)."""
+    import inspect
     cur = obj
-    parts = path.split('.')
-    i = 0
-    while i < len(parts):
-      p = parts[i]
+    for p in path.split('.'):
       nxt = None
-      if hasattr(cur, '__dict__') and p in getattr(cur, '__dict__', {}):
-        nxt = cur.__dict__[p]
-      elif not hasattr(cur, 'co_consts'):
-        # name-mangled private methods
-        for k, v in getattr(cur, '__dict__', {}).items():
-          if k.endswith(p) and k.startswith('_') and '__' in k:
-            nxt = v
-            break
-      if nxt is None and hasattr(cur, 'co_consts'):
+      if inspect.iscode(cur):
         for c in cur.co_consts:
-          if hasattr(c, 'co_name') and c.co_name == p:
+          if inspect.iscode(c) and c.co_name == p:
             nxt = c
             break
+      else:
+        nxt = getattr(cur, '__dict__', {}).get(p)
       if nxt is None:
         return None
       if isinstance(nxt, (staticmethod, classmethod)):
         nxt = nxt.__func__
       if isinstance(nxt, property):
         nxt = nxt.fget
-      nxt = getattr(nxt, '__wrapped__', nxt) if False else nxt
-      if hasattr(nxt, '__code__') and i + 1 < len(parts) and \
-          not hasattr(nxt, '__dict__'):
-        nxt = nxt.__code__
-      elif hasattr(nxt, '__code__') and i + 1 < len(parts) and \
-          parts[i + 1] not in getattr(nxt, '__dict__', {}):
+      while hasattr(nxt, '__wrapped__'):
+        nxt = nxt.__wrapped__
+      if inspect.isfunction(nxt):
         nxt = nxt.__code__
       cur = nxt
-      i += 1
-    if hasattr(cur, '__code__'):
-      cur = cur.__code__
-    return cur if hasattr(cur, 'co_code') else None
+    return cur if inspect.iscode(cur) else None
 
   def watch(self, anchors):
     """anchors: iterable of 'module:Qual.name' strings."""
